@@ -45,50 +45,6 @@ class _Function(object):
 set_trace_warned = False
 
 
-class _ArgTemplateBuilder(object):
-  """Constructs a tuple representing the positional arguments in a call.
-
-  Example (yes, it's legal Python 3):
-
-      f(*args1, b, *args2, c, d)  ->  args1 + (b,) + args2 + (c, d)
-  """
-
-  def __init__(self):
-    self._arg_accumulator = []
-    self._argspec = []
-    self._finalized = False
-
-  def _consume_args(self):
-    if self._arg_accumulator:
-      self._argspec.append(
-          ast.Tuple(elts=self._arg_accumulator, ctx=ast.Load()))
-      self._arg_accumulator = []
-
-  def add_arg(self, a):
-    self._arg_accumulator.append(a)
-
-  def add_stararg(self, a):
-    self._consume_args()
-    self._argspec.append(
-        ast.Call(
-            ast.Name('tuple', ctx=ast.Load()),
-            args=[a],
-            keywords=[]))
-
-  def finalize(self):
-    self._consume_args()
-    self._finalized = True
-
-  def to_ast(self):
-    assert self._finalized
-    if self._argspec:
-      result = self._argspec[0]
-      for i in range(1, len(self._argspec)):
-        result = ast.BinOp(result, ast.Add(), self._argspec[i])
-      return result
-    return ast.Tuple(elts=[], ctx=ast.Load())
-
-
 class CallTreeTransformer(converter.Base):
   """Transforms the call tree by renaming transformed symbols."""
 
@@ -126,31 +82,27 @@ class CallTreeTransformer(converter.Base):
 
   def _args_to_tuple(self, node):
     """Ties together all positional and *arg arguments in a single tuple."""
-    # TODO(mdan): We could rewrite this to just a call to tuple(). Maybe better?
-    # For example for
-    #   f(a, b, *args)
-    # instead of writing:
-    #   (a, b) + args
-    # just write this?
-    #   tuple(a, b, *args)
-    builder = _ArgTemplateBuilder()
-    for a in node.args:
-      if isinstance(a, ast.Starred):
-        builder.add_stararg(a.value)
-      else:
-        builder.add_arg(a)
-    builder.finalize()
-    return builder.to_ast()
+    # A tuple display evaluates and unpacks its elements in the order in which a
+    # call evaluates its arguments, and does not depend on the name `tuple`,
+    # which user code may rebind:
+    #   f(a, *args, b)  ->  (a, *args, b)
+    return ast.Tuple(elts=list(node.args), ctx=ast.Load())
 
   def _kwargs_to_dict(self, node):
     """Ties together all keyword and **kwarg arguments in a single dict."""
-    if node.keywords:
-      return ast.Call(
-          ast.Name('dict', ctx=ast.Load()),
-          args=(),
-          keywords=node.keywords)
-    else:
+    if not node.keywords:
       return parser.parse_expression('None')
+    if all(k.arg is not None for k in node.keywords):
+      # Plain keywords are distinct (a repeated keyword is a syntax error), so a
+      # dict display is equivalent and does not depend on the name `dict`.
+      return ast.Dict(
+          keys=[ast.Constant(k.arg) for k in node.keywords],
+          values=[k.value for k in node.keywords])
+    # With ** arguments, dict() reports a key given twice, as the call would.
+    return ast.Call(
+        ast.Name('dict', ctx=ast.Load()),
+        args=(),
+        keywords=node.keywords)
 
   def visit_Call(self, node):
     full_name = str(anno.getanno(node.func, anno.Basic.QN, default=''))
